@@ -118,6 +118,30 @@ def check_roundtrip(case):
             if got2 != gen.expected_view(spec2):
                 raise Failure("serialization-after-edit-is-stale", f"edited message {gen.expected_view(spec2)}\n serializes to {s_after!r}")
             labels_extra.append("edited-after-first-serialization")
+    child_kind = gen.MESSAGES[spec["kind"]][3]
+    if normal and not case.get("numeric") and child_kind and not spec["children"]:
+        # a vector built WITHOUT a children argument and filled afterwards (children.append): it serializes with what it
+        # holds, and it shares nothing with the next message of its family that is parsed without children
+        sample = {"free": "t", "number": "1", "switch": "On", "state": "Ok", "base64": "QUJD"}[gen.PARTS[child_kind][2]]
+        pattrs = {"name": "appended"}
+        if child_kind == "defNumber":
+            pattrs.update({"format": "%f", "min": "0", "max": "0", "step": "0"})
+        if child_kind == "oneBLOB":
+            pattrs.update({"size": "3", "format": ".bin"})
+        part_spec = {"kind": child_kind, "attrs": pattrs, "text": sample}
+        m0 = type(m)(**dict(spec["attrs"]))
+        if not hasattr(m0.children, "append"):
+            raise Failure("children-not-appendable", f"{type(m0).__name__}().children is {type(m0.children).__name__}")
+        m0.children.append(gen.build(part_spec))
+        spec3 = copy.deepcopy(spec)
+        spec3["children"] = [part_spec]
+        got3 = gen.view(_parse(m0.to_string(), _kindsig(spec3)))
+        if got3 != gen.expected_view(spec3):
+            raise Failure("serialization-after-append-differs", f"expected {gen.expected_view(spec3)}, got {got3}")
+        fresh = gen.view(_parse(s1, _kindsig(spec)))
+        if fresh != want:
+            raise Failure("state-shared-between-messages", f"after another {spec['kind']} was filled by children.append(), parsing {s1!r} gives {fresh}")
+        labels_extra.append("filled-by-append")
     return _info(spec, (["padded"] if pads else []) + (["python-numbers"] if case.get("numeric") else []) + labels_extra)
 
 
